@@ -294,13 +294,21 @@ func (e *jsonRenderer) TargetUpToDate(label *label.Label) {
 var starlarkJSONEncode = starlarkjson.Module.Members["encode"]
 
 func (e *jsonRenderer) TargetEvaluating(label *label.Label, reason string, diff diff.ValueDiff) {
-	var diffJSON starlark.Value = starlark.String("null")
+	diffJSON := "null"
 	if diff != nil {
 		thread := starlark.Thread{Name: "json.encode"}
-		diffJSON, _ = starlark.Call(&thread, starlarkJSONEncode, starlark.Tuple{diff}, nil)
+		encoded, err := starlark.Call(&thread, starlarkJSONEncode, starlark.Tuple{diff}, nil)
+		if text, ok := encoded.(starlark.String); err == nil && ok {
+			diffJSON = string(text)
+		} else {
+			// Not every value has a JSON encoding (a dict with non-string keys, a non-finite float). Report the diff
+			// in its printed form rather than losing the event.
+			text, _ := json.Marshal(diff.String())
+			diffJSON = string(text)
+		}
 	}
 
-	e.event("TargetEvaluating", label, "reason", reason, "diff", json.RawMessage(diffJSON.(starlark.String)))
+	e.event("TargetEvaluating", label, "reason", reason, "diff", json.RawMessage(diffJSON))
 	e.next.TargetEvaluating(label, reason, diff)
 }
 
